@@ -124,11 +124,26 @@ def demo_c12():
     last = [k for k, i in enumerate(sub) if i[0] == "deinit" and i[1].startswith("lploc_")][-3:]
     for k in last:
         sub[k] = ["use", "dagrt_state%state_y"]
-    cfg = tlc.temp_cfg("CONSTANT MaxRuns = 2\nINIT Init\nNEXT Next\nCHECK_DEADLOCK FALSE\nINVARIANT Safety\n"
+    cfg = tlc.temp_cfg("CONSTANTS\n MaxRuns = 2\n MaxIters = 2\nINIT Init\nNEXT Next\nCHECK_DEADLOCK FALSE\nINVARIANT Safety\n"
                        "INVARIANT NoLeakAtShutdown\nCONSTRAINT Bound\n")
     out = tlc.judge_batch("RefCount", [good, bad], cfg=cfg, chunk=50, jobs=1, workers=2)
     badc = {(t[1], t[2]) for t in out["BAD"]}
     return not [b for b in badc if b[0] == 0] and (1, "NoLeakAtShutdown") in badc, sorted(badc)
+
+
+def demo_c12_trace():
+    from . import c12, fprofile
+    m = {"phases": [{"name": "p0", "next": "p0", "calls": fprofile.core_shapes()[0]},
+                    {"name": "p1", "next": "p0", "calls": fprofile.P1_CALLS}], "initial": "p0"}
+    tcs = c12.trace_cases((m, [[(3, 0), (1, 2)]]))
+    keys = ("subs", "allvec", "allrc", "locals", "flags", "phaselits", "assoclits", "log", "nruns")
+    good = {k: tcs[0][k] for k in keys}
+    bad = copy.deepcopy(good)
+    k = [j for j, e in enumerate(bad["log"]) if e[0] == "deinit"][len(bad["log"]) // 4]
+    del bad["log"][k]                                                              # one recorded release removed
+    out = tlc.judge_batch("TraceRefCount", [good, bad], chunk=50, jobs=1, tags=("ACC",))
+    acc = sorted({t[1] for t in out["ACC"]})
+    return tcs[0]["clean"] and acc == [0], (tcs[0]["clean"], acc, len(good["log"]))
 
 
 def demo_c16():
@@ -150,7 +165,8 @@ DEMOS = [("C02 Sched: dropped dependency edge", demo_c02), ("C04 TraceController
          ("C05 Lower: dependent leaf first", demo_c05), ("C06 Simplify: leaves moved", demo_c06),
          ("C01 Stepper: yielded value changed", demo_c01), ("C13 Names: identifier reused", demo_c13),
          ("C20 Wrap: string split", demo_c20), ("C10 Verify: cycle reported accepted", demo_c10),
-         ("C12 RefCount: exit-label releases removed", demo_c12), ("C16 Fuse: guard points at the other flag", demo_c16)]
+         ("C12 RefCount: exit-label releases removed", demo_c12),
+         ("C12 TraceRefCount: one logged release removed", demo_c12_trace), ("C16 Fuse: guard points at the other flag", demo_c16)]
 
 
 def main():
